@@ -226,6 +226,13 @@ func c06Run(r *engine.Run, mode string) int {
 			r.Sample(json.RawMessage(res.Data))
 		}
 	})
+	if mode == "c06" {
+		// tables without a primary key (hidden random row id): all statement sequences, compared as multisets
+		engine.Map("c06nokey", c06nkCases(r.Thorough()), func(i int, c json.RawMessage, res *engine.Result) {
+			r.Add("c06nokey", c, res)
+		})
+		r.Bounds["no_primary_key_sequences_depth"] = map[bool]int{false: 4, true: 5}[r.Thorough()]
+	}
 	r.Extra["closure"] = closure
 	if !closure {
 		r.Exhaustive = false
